@@ -295,11 +295,21 @@ class C10(Check):
                 # an integer below n: the position of the drawn character in the generator's pool
                 chars = LPIN.BasePin.POSSIBLE_CHARS
                 ch = self.choice(chars)
-                return chars.index(ch) if n == len(chars) else ord(ch) % n
+                k = alphabet.index(ch)
+                return chars.index(ch) if n == len(chars) else k % n
         unbind = lambda: None    # noqa: E731
         try:
+            seqs = []
             for rest in itertools.product(range(4), repeat=6):
-                seq = list(case["first"]) + list(rest) + [2]     # 9th choice 'a' ends a rejection loop
+                first8 = list(case["first"]) + list(rest)
+                if all(c in (0, 1) for c in first8):
+                    # digits only: whatever the generator does next (draw again, patch a position) is
+                    # given every continuation of two more draws
+                    for t in itertools.product(range(4), repeat=2):
+                        seqs.append(first8 + list(t) + [2])
+                else:
+                    seqs.append(first8 + [2])       # 9th choice 'a' ends a rejection loop
+            for seq in seqs:
                 unbind()
                 src = Seq(seq)
                 unbind = env.bind_random(LPIN, src)
